@@ -200,7 +200,7 @@ func (g *Gen) Text() *TextVal {
 		t.Parts = ps
 	}
 	if g.chance(g.P.PTyped) {
-		t.Type = []string{"ascii", "braille", "custom"}[g.R.IntN(3)]
+		t.Type = []string{"ascii", "braille", "custom", "ascii", "braille", "text", "if", "format"}[g.R.IntN(8)] // (a keyword directly before a quote is a string type too)
 	}
 	if g.chance(0.15) {
 		last := len(t.Parts) - 1
@@ -951,6 +951,12 @@ func (g *Gen) RawStmt() *Raw {
 	r.Lines = []string{"", lbl + ":", "\t.byte " + strconv.Itoa(g.R.IntN(9)), "\t.4byte " + lbl}
 	if g.R.IntN(3) == 0 {
 		r.Lines = []string{lbl + "::", "    .string \"raw text$\""}
+	}
+	switch g.R.IntN(6) {
+	case 0:
+		r.Lines = append([]string{"", ""}, r.Lines...) // blank lines first
+	case 1:
+		r.Pad = []string{"  ", "\n", "\n\n  \t", " \n"}[g.R.IntN(4)] // trailing white space is not content
 	}
 	return r
 }
